@@ -25,6 +25,10 @@ CHECKS = {
          "deterministic simulation with fault injection: seeded hostile workloads, quiescence-based termination and response-writer contract monitors"),
  "C13": ("exploration", "Requests that need no conversion or match no endpoint are generated with arbitrary headers, query strings, declared lengths and protocol-invalid bodies under all segmentations and body faults; field-by-field and byte-by-byte identity is checked at the downstream handler and at the client, including flush pass-through.",
          "deterministic simulation with fault injection: identity oracle at both seams under seeded I/O schedules and body faults"),
+ "C14": ("exploration", "2..6 RPCs (incl. full-duplex ones with reader and writer sub-tasks, and one-sided failures) share one Transcoder and pools under seeded uniform/PCT/sticky/starve schedules that switch tasks at every seam call; per-RPC solo-vs-concurrent differential, pool/compressor ownership monitor, and well-formedness of duplex responses under one-sided faults. Data races proper are not observed (one task runs at a time).",
+         "deterministic simulation: seeded schedule search over N concurrent RPCs with solo differential and pool-ownership invariants"),
+ "C15": ("exploration", "Histories of 0..20 valid and hostile RPCs precede a probe on one Transcoder with adversarial deterministic pool policies; the probe's canonical result is compared with a fresh Transcoder; pool and compressor misuse monitors are armed.",
+         "deterministic simulation: history-vs-fresh differential under adversarial deterministic pool reuse"),
  "C16": ("exploration", "Bounded liveness by quiescence: a strict ping-pong between a simulated client that only sees flushed bytes and a scripted handler; any withheld byte is a deadlock the scheduler detects exactly (no timeout), over sampled adapter pairings, round counts, sizes and schedules.",
          "deterministic simulation: strict ping-pong on a flush-visibility transport with deadlock (quiescence) detection"),
  "C18": ("exploration", "Twelve rejection classes and every exit path of ServeHTTP (reached by fault schedules) are checked on the event history: dispatch count, handler context cancelled at the return event, no body/writer call after it.",
